@@ -40,6 +40,8 @@ def gen_cases(chk):
     depth = 2 if chk.tier == "thorough" else 1
     for name, s in gensql.enumerate_shapes(depth):
         cases.append((name, s))
+    for name, s in gensql.enumerate_dml():
+        cases.append((name, s))
     n_rand = 4000 if chk.tier == "thorough" else 250
     for prof, allow, share in (
         ("frag", {"subq_item": False, "subq_having": False, "subq_on": False, "mixed_comma_join": False}, 0.6),
@@ -177,8 +179,8 @@ def run(chk):
                          "deviation_classes_seen": dict(per_class), "noop_samples_checked": noop_checked,
                          "exhaustive": False})
     chk.assumptions += ["text -> tree (sqlfluff grammars) is not modelled: it is covered by running the real parser on the rendered text",
-                        "the typed AST covers query / INSERT..SELECT / CTAS / CREATE VIEW / CREATE TABLE / DROP / RENAME / no-op statements; "
-                        "UPDATE, MERGE, COPY, SELECT INTO are exercised by the corpus-based checks only"]
+                        "the typed AST covers query / INSERT..SELECT / CTAS / CREATE VIEW / CREATE TABLE / UPDATE / MERGE / DROP / RENAME / no-op "
+                        "statements; COPY (dialect specific) and SELECT INTO are exercised by the corpus-based checks only"]
     return chk.finish(
         level="proof",
         rule="bounded-exhaustive enumerate_shapes(depth 1 quick / 2 thorough): statement kind x FROM shape x subquery position x nesting, "
